@@ -30,7 +30,7 @@ ASSUMPTIONS = [
     'rep code 50 is generated with non-negative exponents only (TotalDepth limits the exponent field; definition could not be cross-checked offline); '
     'no denormal / reserved patterns (C07 territory)',
     'slices are normalised by the harness to 0 <= start < stop <= total, step >= 1 (the statement says sub-matrix, not Python negative indexing)',
-    'frame spacing units equal depth units (unit conversion is C17)',
+    'frame spacing units equal the X axis units, or differ by one of eleven decimal / duodecimal factors that need no table (IN -> .1IN = 10, US -> MS = 0.001, ...); the general unit conversion is C17',
     'values of one channel (samples x bursts) are compared in recorded order',
     'footprint: every read between start and end of a load lies inside the extents (first TIF marker / PR header .. end of last trailer) of the data '
     'records that contain requested frames, plus at most the 12 byte TIF marker + 4 byte header that immediately follows such a record',
@@ -188,6 +188,9 @@ def execute(scenario):
             res.probe('last_x_checked')
             got = lp.xAxisLastVal
             tol = 4 * np.spacing(max(abs(xs[0]), abs(xs[-1]), 1.0)) * n
+            if fm['dfsr'].get('sp_units'):
+                # the converted spacing carries the rounding of the conversion factor into every step
+                tol = max(tol, 1e-9 * max(1.0, abs(xs[0]), abs(xs[-1]), LL.spacing_in_x_units(fm['dfsr']) * n))
             if got is None or abs(got - xs[-1]) > tol:
                 res.violation('last-x', f'log pass {fi}: last X {got!r}, written {xs[-1]!r} (records of {fm["per_record"][:12]})',
                               indirect=fm['dfsr']['indirect'], regular_records=regular)
@@ -294,6 +297,8 @@ def execute(scenario):
                     res.violation('x-axis-exception', f'op {k}: xAxisValue({r}) raised {type(err).__name__}: {err}', **facts)
                     break
                 tol = 4 * np.spacing(max(abs(want), 1.0)) * (len(rows) + 2)
+                if d.get('sp_units'):
+                    tol = max(tol, 1e-9 * max(1.0, abs(want), LL.spacing_in_x_units(d) * n))
                 if abs(gx - want) > tol:
                     ri, off = record_of_frame(fm, kf)
                     first_in_rec = (r == 0) or record_of_frame(fm, rows[r - 1])[0] != ri
